@@ -59,6 +59,79 @@ func ruleLoadLemma(cx *Ctx) {
 	}
 }
 
+// ruleC03Source: keyed reads of the main table happen only in lookups that filter.
+func ruleC03Source(cx *Ctx) {
+	const rule = "C03.source"
+	cx.R.Rule(rule, 2, "every keyed read of the main table (hashmap.Get on cache.hashmap) is followed by the liveness filter: the node it returns is used - beyond nil / IsAlive / HasExpired tests - only where HasExpired(now) is false for it (the lemma C03.lookup decides for getNode / getNodeQuietly holds for every such read, also one added elsewhere)")
+	get := cx.need(rule, hmPkg, "Map", "Get")
+	hmf := cx.needField(rule, "", "cache", "hashmap")
+	if get == nil || hmf == nil {
+		return
+	}
+	n := 0
+	for _, fn := range cx.P.FuncsOfPkg("") {
+		allInstrs(fn, func(in ssa.Instruction) {
+			c, ok := in.(*ssa.Call)
+			if !ok || !isCallTo(c, get) || !sameField(recvField(c), hmf) {
+				return
+			}
+			n++
+			// values carrying the node
+			carries := map[ssa.Value]bool{c: true}
+			for changed := true; changed; {
+				changed = false
+				for v := range carries {
+					for _, u := range usesOf(v) {
+						if ph, ok := u.(*ssa.Phi); ok && !carries[ph] {
+							carries[ph] = true
+							changed = true
+						}
+					}
+				}
+			}
+			bad := ""
+			for v := range carries {
+				for _, u := range usesOf(v) {
+					switch x := u.(type) {
+					case *ssa.Phi, *ssa.DebugRef:
+						continue
+					case *ssa.BinOp:
+						if _, _, isNil := nilCmp(x); isNil {
+							continue
+						}
+					case *ssa.Call:
+						if m := invokeName(x); (m == "IsAlive" || m == "HasExpired") && x.Call.Value == v {
+							continue
+						}
+					case *ssa.MakeInterface, *ssa.ChangeInterface, *ssa.ChangeType:
+						if len(usesOf(x.(ssa.Value))) == 0 {
+							continue
+						}
+					}
+					alive, unexpired := false, false
+					for _, g := range guardsAt(u.Block()) {
+						gc, ok := g.Cond.(*ssa.Call)
+						if !ok || !carries[gc.Call.Value] {
+							continue
+						}
+						if invokeName(gc) == "IsAlive" && g.Truth {
+							alive = true
+						}
+						if invokeName(gc) == "HasExpired" && !g.Truth {
+							unexpired = true
+						}
+					}
+					_ = alive // liveness is the table's business (a node found by Get is linked); expiry is the reader's
+					if !unexpired {
+						bad = cx.P.where(u)
+					}
+				}
+			}
+			cx.R.Check(bad == "", rule, funcName(fn), fmt.Sprintf("keyed read #%d filtered", n), cx.P.where(c), "the node read from the table is used only where it is known unexpired "+bad)
+		})
+	}
+}
+
 func ruleLoadOps(cx *Ctx) {
 	const rDisp = "C08.dispatch"
 	const rRes = "C10.result"
